@@ -47,6 +47,21 @@ def main():
         for name, (v, typ) in sorted(getattr(ex, "param_syms", {}).items()):
             syms.append((name, typ, v))
         res = solve.discharge_all(ex, obs, ex.workdir, timeout_s=timeout, jobs=tgt.jobs, both=both, order=tgt.order)
+        # an obligation that was discharged on the pinned tree (baseline_obligations.json) and is undecided now gets a
+        # second, much longer attempt before the driver reports it: a slow machine must not look like a violation
+        try:
+            base = set(json.load(open(os.path.join(os.path.dirname(os.path.dirname(os.path.abspath(__file__))),
+                                                   "baseline_obligations.json"))).get(prop_id, []))
+        except Exception:
+            base = set()
+        def final_id(o):
+            return o.id.replace("/" + ex.obl_prefix + "/", "/" + tgt.obl_prefix + "/", 1) if False else o.id
+        again = [o for o in obs if o.expect == "unsat" and o.result.status == "unknown" and o.id in base]
+        if again:
+            first = {o.id: o.result for o in again}
+            solve.discharge_all(ex, again, ex.workdir, timeout_s=timeout * 4, jobs=tgt.jobs, both=False, order=tgt.order)
+            for o in again:
+                o.result.log = list(first[o.id].log) + [("long:" + str(w), s_, d_) for (w, s_, d_) in o.result.log]
         ol = []
         cache = {}
         for o in obs:
